@@ -51,6 +51,11 @@ def run(ctx):
     r14_counter(ctx)
     r16_cmp(ctx)
     r17_shared(ctx)
+    # event times may be quantities (Duration clocks): their ordering operators must be the ordering of the SI values for the
+    # event comparison above to be a total order (shared rule with C16 / C17)
+    from . import c16
+    ctx.uses('units')
+    c16.r166(ctx, None)
 
 
 def r17_shared(ctx):
@@ -109,6 +114,52 @@ def check_eventlist(ctx, cname):
             p1 = g.reaches(node, g.exit, avoid=restore_h + restore_up, labels_excluded=('exc', 'raise', 'reraise'))
             p2 = g.reaches(node, g.exit, avoid=restore_h + restore_down, labels_excluded=('exc', 'raise', 'reraise'))
             ok = not (p1 or p2)
+            if not ok:
+                # deleting the LAST element of a heap leaves a heap: a path that skips the restoring call is fine when it has established
+                # `i >= len(F)` for the deleted position i after the deletion (`if i < len(F): heapify(F)`)
+                idx = None
+                for n_ in walk_shallow(node.ast):
+                    if isinstance(n_, ast.Subscript) and isF(n_.value) and isinstance(n_.ctx, ast.Del) and isinstance(n_.slice, ast.Name):
+                        idx = n_.slice.id
+                    elif isinstance(n_, ast.Call) and isinstance(n_.func, ast.Attribute) and n_.func.attr == 'pop' and isF(n_.func.value) \
+                            and len(n_.args) == 1 and isinstance(n_.args[0], ast.Name):
+                        idx = n_.args[0].id
+                if idx is not None:
+                    exempt = {}             # cond node id -> label of the branch on which the deleted element was the last one
+                    lens = {f'len({unparse(x)})' for x in ast.walk(fn) if isF(x)}
+                    for cn in g.nodes:
+                        if cn.kind != 'cond' or cn.ast is None or not isinstance(cn.ast, ast.Compare) or len(cn.ast.ops) != 1:
+                            continue
+                        l_, r_, op_ = unparse(cn.ast.left), unparse(cn.ast.comparators[0]), cn.ast.ops[0]
+                        if l_ in lens and r_ == idx:
+                            l_, r_ = r_, l_
+                            op_ = {ast.Lt: ast.Gt, ast.Gt: ast.Lt, ast.LtE: ast.GtE, ast.GtE: ast.LtE}.get(type(op_), type(op_))()
+                        if l_ == idx and r_ in lens:
+                            if isinstance(op_, (ast.GtE, ast.Eq)):
+                                exempt[cn.id] = 'T'
+                            elif isinstance(op_, (ast.Lt, ast.NotEq)):
+                                exempt[cn.id] = 'F'
+                    if exempt:
+                        restoring = {x.id for x in restore_h} | ({x.id for x in restore_up} & {x.id for x in restore_down})
+                        after_ = g.reachable_from(node)
+                        changed_between = [x for x in g.stmt_nodes() if x is not node and x.id in after_ and x.ast is not None and any(
+                            (isinstance(y, ast.Name) and y.id == idx and isinstance(y.ctx, ast.Store)) for y in walk_shallow(x.ast))]
+                        seen_, todo_ = set(), [node]
+                        bad_path = False
+                        while todo_ and not changed_between:
+                            x = todo_.pop()
+                            if x.id in seen_:
+                                continue
+                            seen_.add(x.id)
+                            for (s_, lab) in x.succ:
+                                if lab in ('exc', 'raise', 'reraise') or s_.id in restoring:
+                                    continue
+                                if x.id in exempt and lab == exempt[x.id]:
+                                    continue
+                                if s_ is g.exit:
+                                    bad_path = True
+                                todo_.append(s_)
+                        ok = not bad_path and not changed_between
             ctx.ob('R1.1', f'{cname}.{mname}:{what}', ok,
                    sample=f'{cname}.{mname}: `{what}` breaks heap order; restored on every path to return: {ok}')
             if not ok:
@@ -606,6 +657,12 @@ def r15_observers(ctx, cname, ci, F, ev_index, isF):
                             okp = True
             elif isinstance(idx, ast.Call) and isinstance(idx.func, ast.Attribute) and idx.func.attr == 'index' and isF(idx.func.value):
                 okp = True
+            elif isinstance(idx, ast.Name) and [a for a in walk_shallow(fn) if isinstance(a, (ast.Assign, ast.AnnAssign)) and getattr(a, 'value', None) is not None
+                                                  and any(isinstance(t, ast.Name) and t.id == idx.id for t in (a.targets if isinstance(a, ast.Assign) else [a.target]))
+                                                  and isinstance(a.value, ast.Call) and isinstance(a.value.func, ast.Attribute) and a.value.func.attr == 'index'
+                                                  and isF(a.value.func.value)] \
+                    and sum(1 for y in walk_shallow(fn) if isinstance(y, ast.Name) and y.id == idx.id and isinstance(y.ctx, ast.Store)) == 1:
+                okp = True              # i = F.index(key): the position of the key (ValueError, i.e. no deletion, when it is absent)
             elif isinstance(idx, ast.Name):
                 # `for i, x in enumerate(F): if x == key: del F[i]; break` -- the position of the element just compared equal
                 for lp in walk_shallow(fn):
